@@ -125,7 +125,7 @@ theorem inv_step (ops : DataOps D V) (F : Fitters C V O P D) (o : Opts V O) (h :
     refine ⟨hc, ?_, ?_, ?_, ?_, ?_⟩
     · intro H; exact hov (memL H)
     · show (stepBound s.kind s.min (ops.lo x)) = o.min ∨ _
-      cases hk : s.kind <;> simp only [stepBound, stepSize]
+      cases hk : s.kind <;> simp only [stepBound]
       · rcases hmin with a | ⟨a, b⟩
         · exact .inl a
         · exact .inr ⟨a, lift b⟩
@@ -138,7 +138,7 @@ theorem inv_step (ops : DataOps D V) (F : Fitters C V O P D) (o : Opts V O) (h :
         · exact .inl a
         · exact .inr ⟨a, lift b⟩
     · show (stepBound s.kind s.max (ops.hi x)) = o.max ∨ _
-      cases hk : s.kind <;> simp only [stepBound, stepSize]
+      cases hk : s.kind <;> simp only [stepBound]
       · rcases hmax with a | ⟨a, b⟩
         · exact .inl a
         · exact .inr ⟨a, lift b⟩
@@ -151,7 +151,7 @@ theorem inv_step (ops : DataOps D V) (F : Fitters C V O P D) (o : Opts V O) (h :
         · exact .inl a
         · exact .inr ⟨a, lift b⟩
     · show (stepSize s.kind s.sampleSize (ops.len x)) = o.sampleSize ∨ _
-      cases hk : s.kind <;> simp only [stepBound, stepSize]
+      cases hk : s.kind <;> simp only [stepSize]
       · rcases hsz with a | ⟨a, b⟩
         · exact .inl a
         · exact .inr ⟨a, lift b⟩
@@ -167,6 +167,117 @@ theorem inv_step (ops : DataOps D V) (F : Fitters C V O P D) (o : Opts V O) (h :
           | zero => exact ⟨a, x, memX, hx, by rw [p2, hl]; rfl⟩
           | succ n => exact ⟨a, y, List.mem_append.2 (.inl hy), p1, by rw [p2, hl]; rfl⟩
     · intro H; have := H x memX; rw [hx] at this; exact absurd rfl this
+
+theorem inv_fitAll (ops : DataOps D V) (F : Fitters C V O P D) (o : Opts V O) (xs : List D) :
+    ∀ (h : List D) (s : UState C V O P), Inv ops o h s →
+      Inv ops o (h ++ xs) (fitAll .asFound ops F s xs) := by
+  induction xs with
+  | nil => intro h s hi; simpa [fitAll] using hi
+  | cons x xs ih =>
+    intro h s hi
+    have := ih (h ++ [x]) (fit .asFound ops F s x) (inv_step ops F o h s x hi)
+    simpa [List.append_assoc, fitAll] using this
+
+/-- the histories `h` after which an as-found fit on `x` still behaves like a fresh one. -/
+def Safe (ops : DataOps D V) (k : Kind) (o : Opts V O) (h : List D) (x : D) : Prop :=
+  -- (1) constant methods: no constant dataset before a non-constant final one
+  (ops.const? x = none → ∀ y ∈ h, ops.const? y = none) ∧
+  -- (2) remembered bounds: given in the constructor, or every earlier non-constant dataset has the range of `x`
+  (k = .truncated → ops.const? x = none →
+    (o.min ≠ none ∨ ∀ y ∈ h, ops.const? y = none → ops.lo y = ops.lo x) ∧
+    (o.max ≠ none ∨ ∀ y ∈ h, ops.const? y = none → ops.hi y = ops.hi x)) ∧
+  -- (3) cached sample size: given in the constructor, or nothing non-constant seen, or `x` is
+  --     constant and every earlier non-constant dataset has its length
+  (k = .kde → truthy o.sampleSize ≠ none ∨ (∀ y ∈ h, ops.const? y ≠ none) ∨
+    (ops.const? x ≠ none ∧ ∀ y ∈ h, ops.const? y = none → ops.len y = ops.len x))
+
+theorem orLen_self (n : Nat) : orLen (some n) n = n := by
+  cases n <;> rfl
+
+theorem obs_fit_of_safe (ops : DataOps D V) (F : Fitters C V O P D) (c : C) (k : Kind) (o : Opts V O)
+    (h : List D) (s : UState C V O P) (x : D) (hi : Inv ops o h s) (hc : s.cls = c) (hk : s.kind = k)
+    (hs : Safe ops k o h x) :
+    obs (fit .asFound ops F s x) = obs (fit .asFound ops F (UState.fresh c k o) x) := by
+  obtain ⟨hct, hov, hmin, hmax, hsz, hun⟩ := hi
+  obtain ⟨s1, s2, s3⟩ := hs
+  cases hx : ops.const? x with
+  | some cv =>
+    have hsize : constSize k s.sampleSize (ops.len x) = constSize k o.sampleSize (ops.len x) := by
+      cases k with
+      | scipy => rfl
+      | truncated => rfl
+      | kde =>
+        simp only [constSize]
+        rcases hsz with a | ⟨a, y, hy, p1, p2⟩
+        · rw [a]
+        · rcases s3 rfl with t | t | ⟨_, t⟩
+          · exact absurd a t
+          · exact absurd p1 (t y hy)
+          · rw [p2, t y hy p1, orLen_self, orLen_falsy _ _ a]
+    unfold fit obs toDict checkFit UState.fresh
+    simp [hx, hc, hk, hsize]
+  | none =>
+    have hov' : s.override = none := hov (s1 hx)
+    have hopts : effOpts k (stepBound k s.min (ops.lo x)) (stepBound k s.max (ops.hi x)) s.sampleSize o.other =
+        effOpts k (stepBound k o.min (ops.lo x)) (stepBound k o.max (ops.hi x)) o.sampleSize o.other := by
+      cases k with
+      | scipy => rfl
+      | truncated =>
+        obtain ⟨b1, b2⟩ := s2 rfl hx
+        have e1 : orElse s.min (ops.lo x) = orElse o.min (ops.lo x) := by
+          rcases hmin with a | ⟨a, y, hy, p1, p2⟩
+          · rw [a]
+          · rcases b1 with t | t
+            · exact absurd a t
+            · rw [p2, a, t y hy p1]; rfl
+        have e2 : orElse s.max (ops.hi x) = orElse o.max (ops.hi x) := by
+          rcases hmax with a | ⟨a, y, hy, p1, p2⟩
+          · rw [a]
+          · rcases b2 with t | t
+            · exact absurd a t
+            · rw [p2, a, t y hy p1]; rfl
+        simp only [effOpts, stepBound, e1, e2]
+      | kde =>
+        simp only [effOpts]
+        rcases hsz with a | ⟨a, y, hy, p1, p2⟩
+        · rw [a]
+        · rcases s3 rfl with t | t | ⟨t, _⟩
+          · exact absurd a t
+          · exact absurd p1 (t y hy)
+          · exact absurd hx t
+    unfold fit obs toDict checkFit UState.fresh
+    simp only [hx, hc, hk, hov', hct]
+    rw [hopts]
+
+/-! ## closed refutation of re-fit purity for the code as found -/
+
+/-- "re-fitting gives the same observable model as fitting a fresh one", for every interpretation of
+    the externals, every class/kind/options, every history. -/
+def RefitPure (v : Variant) : Prop :=
+  ∀ (C V O P D : Type) (ops : DataOps D V) (F : Fitters C V O P D) (c : C) (k : Kind) (o : Opts V O)
+    (xs : List D) (x : D),
+    obs (fitAll v ops F (UState.fresh c k o) (xs ++ [x])) = obs (fit v ops F (UState.fresh c k o) x)
+
+end
+
+/-! ## `construct` / `get_instance` -/
+section
+variable {Val St : Type}
+
+theorem construct_ok (ci : ClassInfo) (a : Args Val) (o : Obj Val St) (h : construct ci a = .ok o) :
+    o.cls = ci.name ∧ o.stored = (if ci.storeArgs then some a else none) ∧ o.fitted = false ∧
+    o.fitState = none ∧ bindArgs ci.params ci.required a = .ok o.bound := by
+  unfold construct at h
+  cases hb : bindArgs ci.params ci.required a with
+  | error e => rw [hb] at h; cases h
+  | ok b =>
+    rw [hb] at h
+    injection h with h
+    subst h
+    exact ⟨rfl, rfl, rfl, rfl, rfl⟩
+
+theorem bindArgs_none (params : List String) : bindArgs (Val := Val) params [] Args.none = .ok [] := by
+  simp [bindArgs, Args.none]
 
 end
 end CopVerif.Model.Lifecycle
